@@ -177,6 +177,20 @@ PROPS = {
                        "of at least a word, and for shorter ranges when either candidate word is mapped); otherwise failure or a non-empty prefix of readable "
                        "bytes (vectored) / failure (file, ptrace); soundness of whatever ptrace returns; counterexample theorem for the repaired tail read.",
     },
+    "C11": {
+        "rule": "live dumps under every subset of the five fail points (32 combinations, 1 … 5 threads, with / without an unresolvable principal mapping) and "
+                "under naturally induced failures: a thread name that is not UTF-8, garbage where the program headers are expected (direct auxv), a thread "
+                "traced by another process, nothing induced. The soft-error stream is parsed with serde_json and reduced to its list of variant paths. "
+                "Distinct = (scenario, mask, #threads, principal).",
+        "expected_tags": ["scen.faults", "scen.badname", "scen.baddso", "scen.traced", "scen.none", "mask.0", "mask.31"],
+        "extra_theorems": ["plan_best_effort_soft", "plan_soft_errors_last"],
+        "trusted_base": ["serde_json emits well-formed JSON (the harness re-parses it)", "error-graph pushes a sub-list to its parent on drop iff it is non-empty", "failspot"],
+        "assumptions": ["the stop time-out (StopProcessFailed/Timeout) may appear on its own when a thread is traced by another process: timing dependent, tolerated in the natural scenarios"],
+        "explanation": "C11 theorems: for every stream plan and every set of failing soft steps the dump completes, exactly the failing steps are recorded in order and "
+                       "every other stream is published (zero entry for the failed ones); instantiated with the plan regenerated from generate_dump (file copies, "
+                       "linker data, handle data, soft-error serialisation are soft); init-phase steps are wrapped as soft errors (regenerated); expected tree "
+                       "for every fail-point subset (compared path by path with the real stream).",
+    },
 }
 
 NOT_APPLICABLE = {}
